@@ -324,7 +324,11 @@ func AtomText(a *absint.Atom, tr ...string) string {
 
 // FindField finds the struct and field whose json (or first configured) tag names the raw property atom.
 func (m *FileModel) FindField(name *absint.Atom, tagKey string) (*Struct, *Field) {
-	want := AtomText(name)
+	return m.FindFieldText(AtomText(name), tagKey)
+}
+
+// FindFieldText is FindField for a given tag text.
+func (m *FileModel) FindFieldText(want, tagKey string) (*Struct, *Field) {
 	var names []string
 	for n := range m.Structs {
 		names = append(names, n)
